@@ -5,6 +5,20 @@ import (
 )
 
 var registry = map[string]*Property{
+	"C07": {
+		Title:      "Malformed input ends in an error, and the error is permanent",
+		Decided:    "ERR-ABSORB-R, ERR-STICKY-R",
+		NotDecided: "that each grammar violation in the catalogue is detected",
+		Technique:  "SSA must-dataflow of branch facts, path search to exits, effect summaries",
+		DesignRef:  "DESIGN.md §3.1, §4 C07",
+		Rules: []Rule{
+			{"ERR-ABSORB-R", rules.ErrAbsorbR},
+			{"ERR-STICKY-R", rules.ErrStickyR},
+			{"REFUSE-PURE", rules.RefusePure},
+			{"ERR-DROP", rules.ErrDrop(rules.Scope{Name: "all"}, nil, 1)},
+			{"ERR-SWAP", rules.ErrSwap(rules.Scope{Name: "all"}, nil, 1)},
+		},
+	},
 	"C12": {
 		Title:      "Any Writer call sequence ends in a correct stream or an error",
 		Decided:    "For all 24 error-returning Writer methods on each writer implementation: the sticky error is tested before any effect on the writer (ERR-GUARD-W) and every returned error is the sticky error (ERR-STICKY-W).",
